@@ -18,8 +18,10 @@ import edzed
 
 PROPERTY = 'C09'
 LEVEL = 'model_checking'
-FATAL = ['handler', 'calc', 'task', 'abort', 'ctrl-abort']
-CANCEL = ['shutdown', 'ctrl-shutdown']
+# the sim-* sources act from WITHIN the simulator task (while a combinational block is being evaluated):
+# a control event sent by a CBlock's on_output, a handler error caught by the CBlock function that caused it
+FATAL = ['handler', 'calc', 'task', 'abort', 'ctrl-abort', 'sim-ctrl-abort', 'sim-caught']
+CANCEL = ['shutdown', 'ctrl-shutdown', 'sim-ctrl-shutdown']
 HARMLESS = ['badparam', 'unknown']
 SUPPORT = ['support-raises', 'support-returns']      # only meaningful under edzed.run()
 KINDS = FATAL + CANCEL + HARMLESS
@@ -29,13 +31,14 @@ OUTSIDE = ["more than 3 sources", "errors inside clean-up routines racing with t
            "same-instant orders other than heapq's (at a tie every tied source is accepted)"]
 STUBS = ["virtual-time loop with symbolic clock"]
 ASSUMPTIONS = ["a handler error is reported as EdzedCircuitError whose __cause__ is the original exception"]
-EXPECT_LABELS = {'all': ['first-delivered-wins', 'first-error-reported', 'error-attr', 'shutdown-reraises', 'cancel-is-normal', 'not-ready-after',
+EXPECT_LABELS = {'all': ['terminates', 'first-delivered-wins', 'first-error-reported', 'error-attr', 'shutdown-reraises', 'cancel-is-normal', 'not-ready-after',
                          'harmless-dont-stop', 'run-result', 'abort-before-start', 'nonfatal-init']}
 EXPECT_NOTES = {'all': ['support-task-ends', 'tie', 'fatal-first', 'cancel-first', 'only-harmless', 'caught-handler-error-aborts']}
 FLOORS = {'quick': {'paths': 300, 'checks': 1500}, 'thorough': {'paths': 3000, 'checks': 15000}}
 
 
-def build(env, kinds, times, fired):
+def build(env, kinds, times, fired, caught=None):
+    caught = [] if caught is None else caught
     circ = fresh_circuit()
 
     class PB(edzed.SBlock):
@@ -71,6 +74,31 @@ def build(env, kinds, times, fired):
         return x
     edzed.FuncBlock('fb', func=fb_func).connect(pb)
     edzed.Event('_ctrl', 'shutdown')          # creates the control block
+
+    def tagged(x, t):
+        return isinstance(x, tuple) and len(x) == 2 and x[0] == t
+
+    def ctl_filter(t):
+        def flt(d):
+            v = d['value']
+            if tagged(v, t):
+                fired.append(v[1])
+                return {'source': f'marker-{v[1]}', 'error': f'marker-{v[1]}'}
+            return False
+        return flt
+    edzed.FuncBlock('fc', func=lambda x: x,
+                    on_output=[edzed.Event('_ctrl', 'abort', efilter=ctl_filter('sim-abort')),
+                               edzed.Event('_ctrl', 'shutdown', efilter=ctl_filter('sim-shutdown'))]).connect(pb)
+    pb2 = PB('pb2')
+
+    def fd_func(x):
+        if tagged(x, 'sim-caught'):
+            try:
+                pb2.event('x', value=1, fail=x[1])
+            except RuntimeError:
+                caught.append(x[1])       # the caller (inside the simulator task) catches it
+        return 0
+    edzed.FuncBlock('fd', func=fd_func).connect(pb)
     for i, k in enumerate(kinds):
         if k == 'task':
             MT(f'mt{i}', t=times[i], marker=i, stop_timeout=1.0)
@@ -89,6 +117,12 @@ async def fire(circ, pb, kind, i, t, caught, fired, yields):
                 caught.append(i)          # the caller catches it: the simulation must stop anyway
         elif kind == 'calc':
             pb.event('x', value=('boom', i))
+        elif kind == 'sim-ctrl-abort':
+            pb.event('x', value=('sim-abort', i))
+        elif kind == 'sim-ctrl-shutdown':
+            pb.event('x', value=('sim-shutdown', i))
+        elif kind == 'sim-caught':
+            pb.event('x', value=('sim-caught', i))
         elif kind == 'abort':
             fired.append(i)
             circ.abort(OSError(f"marker-{i}"))
@@ -145,9 +179,9 @@ def scen_errors(env, kinds, use_run):
     n = len(kinds)
     times = [env.real(f't{i}', 1, 10) for i in range(n)]
     fired = []          # ground truth: the order in which the sources actually delivered their error
-    circ, pb = build(env, kinds, times, fired)
-    yields = [env.choose(3, f'yields{i}') if n > 1 else 0 for i in range(n)]
     caught = []
+    circ, pb = build(env, kinds, times, fired, caught)
+    yields = [env.choose(3, f'yields{i}') if n > 1 else 0 for i in range(n)]
     res = {}
 
     async def main():
@@ -159,8 +193,10 @@ def scen_errors(env, kinds, use_run):
                     return
                 await asyncio.sleep(1000)
             try:
-                r = await edzed.run(*[support(c) for c in fires])
+                r = await asyncio.wait_for(edzed.run(*[support(c) for c in fires]), 200)
                 res['run'] = ('returned', r)
+            except asyncio.TimeoutError:
+                res['run'] = ('hung', None)
             except BaseException as err:
                 res['run'] = ('raised', err)
         else:
@@ -173,8 +209,11 @@ def scen_errors(env, kinds, use_run):
             if not any(k in FATAL or k in CANCEL for k in kinds):
                 tasks.append(asyncio.create_task(backstop()))
             try:
-                await simtask
+                await asyncio.wait_for(asyncio.shield(simtask), 200)
                 res['sim'] = ('returned', None)
+            except asyncio.TimeoutError:
+                res['sim'] = ('hung', None)       # 190 virtual seconds after the last source: it never stopped
+                simtask.cancel()
             except BaseException as err:
                 res['sim'] = ('raised', err)
             res['t_end'] = loop.time()
@@ -193,6 +232,7 @@ def scen_errors(env, kinds, use_run):
     vloop.run(main())
     # ---- reference --------------------------------------------------------------------------
     stoppers = [i for i, k in enumerate(kinds) if k in FATAL or k in CANCEL]
+    env.check('terminates', res.get('sim', res.get('run'))[0] != 'hung' or not stoppers, info=lambda: (kinds, fired, res))
     env.check('no-unexpected', not [c for c in caught if isinstance(c, tuple) and c[0] == 'unexpected'], info=lambda: caught)
     if not stoppers:
         env.note('only-harmless')
@@ -264,7 +304,7 @@ def scen_errors(env, kinds, use_run):
                   info=lambda: (kinds, first, err, [str(t) for t in times]))
         env.check('shutdown-reraises', res['shutdown'][0] == 'raised' and res['shutdown'][1] is err,
                   info=lambda: res['shutdown'])
-        if any(kinds[i] == 'handler' and i in caught for i in first) and strictly:
+        if any(kinds[i] in ('handler', 'sim-caught') and i in caught for i in first) and strictly:
             env.note('caught-handler-error-aborts')
     else:
         # a cancellation tied with a fatal error: either
